@@ -25,6 +25,15 @@ C03Rules(e) ==
     /\ IF e.api = "verify" /\ (e.ret # "ok" \/ e.msg # Expected(item.md5mode)) THEN Rej("C03.md5-verdict", e) ELSE TRUE
     /\ IF e.api = "stream" /\ item.subset /\ (e.ret # "ok" \/ ~e.eq) THEN Rej("C03.stream-reader-decodes-subset-frames", e) ELSE TRUE
     /\ IF e.api \in {"frameiter", "seektable"} /\ e.ret # "ok" THEN Rej("C03.frame-parser-accepts-valid-stream", e) ELSE TRUE
+\* Growth beyond the listed properties (non-gating, "growth." rules): the frame iterator's absolute offsets and block sizes, and the
+\* regenerated every-frame seek table (sample number, offset relative to the first frame, block size), against the layout the format
+\* model derived for the same valid stream: item.layout[i] = <<absolute offset, first sample, block size>>
+GrowthRules(e) ==
+    /\ IF e.api = "frameiter" /\ e.ret = "ok" /\ Has(e, "layout") /\ e.layout # [i \in 1..Len(item.layout) |-> <<item.layout[i][1], item.layout[i][3]>>]
+       THEN Rej("growth.frameiter-offsets-are-the-frame-starts", e) ELSE TRUE
+    /\ IF e.api = "seektable" /\ e.ret = "ok" /\ Has(e, "layout")
+          /\ e.layout # [i \in 1..Len(item.layout) |-> <<item.layout[i][2], item.layout[i][1] - item.metaLen, item.layout[i][3]>>]
+       THEN Rej("growth.regenerated-seek-points-are-the-frames", e) ELSE TRUE
 C04Rules(e) ==
     /\ IF e.ret \notin {"ok", "err"} THEN Rej("C04.no-panic", e) ELSE TRUE
     /\ IF e.peak_kib > 16384 + (64 * e.input_len) \div 1024 THEN Rej("C04.bounded-allocation", e) ELSE TRUE
@@ -36,6 +45,7 @@ Next == /\ l <= Len(Rec) /\ l' = l + 1
            ELSE IF e.ev = "dec"
            THEN /\ UNCHANGED item
                 /\ IF Prop = "C03" /\ item.valid THEN C03Rules(e) ELSE TRUE
+                /\ IF Prop = "C03" /\ item.valid /\ Has(item, "layout") THEN GrowthRules(e) ELSE TRUE
                 /\ IF Prop \in {"C03", "C04"} THEN C04Rules(e) ELSE TRUE
            ELSE UNCHANGED item
 Spec == Init /\ [][Next]_tvars
